@@ -31,7 +31,14 @@ def _solve(self):
 
 def _ro(nodes, options):
     before = list(nodes)
-    targets = {id(n): (n.parent.currentPos if n.parent else n.idealPos) for n in nodes}
+    # the target the PROPERTY prescribes, computed without the node's own parent pointer: the data position in the layer nearest the
+    # axis (first call of a layout), otherwise the final position of the item of the previous layer that stands in for this one
+    recs = _state["layers"]
+    if recs:
+        stand_in = {id(s.child): s for s in recs[-1]["after"] if getattr(s, "child", None) is not None}
+        targets = {id(n): (stand_in[id(n)].currentPos if id(n) in stand_in else (n.parent.currentPos if n.parent else n.idealPos)) for n in nodes}
+    else:
+        targets = {id(n): n.idealPos for n in nodes}
     mark = len(_state["solves"])
     out = _orig_ro(nodes, options)
     xs = _state["solves"][mark] if len(_state["solves"]) > mark else []
@@ -193,7 +200,7 @@ def placed_labels(nodes):
     return ";".join("%s:%s:%d:%s" % (fr(n.idealPos), fr(n.width), n.layerIndex, fr(n.currentPos)) for n in nodes)
 
 
-def run_history(ops, mode):
+def run_history(ops, mode, want_layer_lines=False):
     """ops: list of ("new", opts) | ("nodes", labels) | ("stale-nodes",) | ("options", delta) | ("compute",) | ("empty-nodes",).
     One engine at a time; after every compute the observable result is turned into a `force` line for the
     *accumulated* options and the *current* labels.  Returns list of (line, tag)."""
@@ -218,6 +225,6 @@ def run_history(ops, mode):
             acc.update(op[1])
             engine.set_options({k: (conv(v, exact) if k != "algorithm" else v) for k, v in op[1].items()})
         elif op[0] == "compute":
-            fl, lls, _, _ = run_force(None, acc, mode, engine=engine, nodes=nodes, want_layer_lines=False)
-            out.append((fl, placed_labels(nodes), dict(acc), [(n.idealPos, n.width) for n in nodes]))
+            fl, lls, _, _ = run_force(None, acc, mode, engine=engine, nodes=nodes, want_layer_lines=want_layer_lines)
+            out.append((fl, placed_labels(nodes), dict(acc), [(n.idealPos, n.width) for n in nodes]) + ((lls,) if want_layer_lines else ()))
     return out
